@@ -62,7 +62,7 @@ REQUIRED_CLASSES = ['top:' + c for c in TOP_CLASSES] + [
 # if it does not already make it a violation)
 REQUIRED_BRANCHES = ['to_dict:' + c for c in TOP_CLASSES] + ['from_dict:' + c for c in [
     'EmptyMode', 'FreeTrans', 'HarmonicVib', 'QRRHOVib', 'EinsteinVib', 'DebyeVib', 'RigidRotor',
-    'GroundStateElec', 'EmptyNucl', 'StatMech', 'Nasa', 'Nasa9', 'SingleNasa9', 'Shomate',
+    'GroundStateElec', 'EmptyNucl', 'StatMech', 'Nasa', 'SingleNasa9', 'Shomate',
     'Reference', 'References', 'GasPressureAdj', 'PiecewiseCovEffect', 'CatSite', 'BEP',
     'Reaction', 'Reactions', 'IdealGasEOS', 'vanDerWaalsEOS']]
 REQUIRED_PROBES = ['pmuttEncoder.default', 'json_to_pmutt', 'type_to_class', 'remove_class']
@@ -170,7 +170,7 @@ def g_statmech(rng, name, rich=True, depth=0):
         sm['misc_models'] = [g_cov(rng) for _ in range(rng.randint(1, 2))]
         if rng.random() < 0.3:
             sm['misc_models'].append(g_constant(rng))
-    if depth < 1 and rng.random() < 0.3:
+    if rng.random() < (0.45 if depth < 1 else 0.08):
         sm['references'] = g_references(rng, fitted=rng.random() < 0.7)
         if sm['elements'] is None:
             sm['elements'] = g_elements(rng)
@@ -247,9 +247,9 @@ def g_species(rng, name, kinds, rich):
     return g_empirical(rng, k, name, rich=rich)
 
 
-def g_bep(rng, omkm=False):
+def g_bep(rng, omkm=False, named=False):
     n = {'type': 'omkm.BEP' if omkm else 'BEP', 'slope': _r(rng, 0, 1), 'intercept': _r(rng, 0, 60, 3),
-         'name': rng.choice(['BEP_CH', 'bep 2', None]) if not omkm else rng.choice(['BEP_CH', 'C-H']),
+         'name': rng.choice(['BEP_CH', 'bep 2'] + ([] if named else [None])),
          'descriptor': rng.choice(DESCRIPTORS), 'elements': g_elements(rng, allow_none=True),
          'notes': rng.choice(NOTES)}
     if omkm:
@@ -287,7 +287,7 @@ def g_reaction(rng, cls='Reaction', pool=None, rich=None, kinds=None, names=None
         node['transition_state'] = [rng.choice(keys)]
         node['transition_state_stoich'] = [1]
     elif ts == 'bep':
-        node['bep'] = g_bep(rng, omkm=(cls == 'SurfaceReaction'))
+        node['bep'] = g_bep(rng, omkm=(cls == 'SurfaceReaction'), named=True)
         node['transition_state'] = ['@bep']
         node['transition_state_stoich'] = [1]
     if cls == 'ChemkinReaction':
@@ -754,6 +754,9 @@ class Cmp:
         self.extra_mech = extra_mech or {}
         self.active = set()
         self.depth_max = 0
+        self.class_mismatch = False
+        self.dirty = False
+        self.rxn_stack = []
 
     def mech(self, **kw):
         m = dict(kw)
@@ -770,10 +773,19 @@ class Cmp:
             return True
         if is_pm(b):
             return False
-        if isinstance(a, np.ndarray):
-            a = a.tolist()
-        if isinstance(b, np.ndarray):
-            b = b.tolist()
+        if isinstance(a, np.ndarray) or isinstance(b, np.ndarray):
+            # 0-d (object) arrays are not a list-like spelling of anything
+            if getattr(a, 'ndim', 1) == 0 or getattr(b, 'ndim', 1) == 0:
+                return isinstance(a, np.ndarray) and isinstance(b, np.ndarray) and a.ndim == b.ndim \
+                    and self.value(a.tolist(), b.tolist(), st, depth)
+            if type(a) is not type(b) and st.get('ctx') is not None:
+                ex = st['ctx'].extra.setdefault('container_type_changed', {})
+                k = '%s:%s->%s' % (st.get('where'), type(a).__name__, type(b).__name__)
+                ex[k] = ex.get(k, 0) + 1
+            if isinstance(a, np.ndarray):
+                a = a.tolist()
+            if isinstance(b, np.ndarray):
+                b = b.tolist()
         if isinstance(a, tuple):
             a = list(a)
         if isinstance(b, tuple):
@@ -808,18 +820,22 @@ class Cmp:
             return False
         if type(b) is not type(a):
             got = cname(b) if is_pm(b) else type(b).__name__
+            self.class_mismatch = True
             ctx.fail('J2', self.mech(**{'class': cn, 'step': 'same_class', 'got': got}),
                      decoded=_short(b))
             return True
         ctx.held('J2')
         self.active.add(id(a))
+        is_rxn = hasattr(a, 'reactants_stoich')
+        if is_rxn:
+            self.rxn_stack.append(a)
         try:
             own_dirty = child_dirty = False
             A, B = attrs_of(a), attrs_of(b)
             for name in sorted(set(A) | set(B)):
                 if (cn, name) in IGNORE:
                     continue
-                st = {'child_dirty': False}
+                st = {'child_dirty': False, 'where': cn + '.' + name, 'ctx': ctx}
                 if name not in B:
                     ok, got, want = False, MISSING, A[name]
                 elif name not in A:
@@ -844,6 +860,8 @@ class Cmp:
             return own_dirty or child_dirty
         finally:
             self.active.discard(id(a))
+            if is_rxn:
+                self.rxn_stack.pop()
 
     # ---- getters -----------------------------------------------------------------------
     def getters(self, a, b, cn, telemetry=False):
@@ -852,7 +870,11 @@ class Cmp:
         has_ts = getattr(a, 'transition_state', None) is not None
         for name, plan in _getter_plans(type(a)):
             for cond in self.conds:
-                kw = _plan_kwargs(name, plan, cond, has_ts, self.probe_reaction)
+                # BEP getters take the reaction they belong to as an argument: the enclosing
+                # ORIGINAL reaction (or the probe reaction of a stand-alone BEP) for both sides
+                rxn_arg = self.rxn_stack[-1] if (self.rxn_stack and self.rxn_stack[-1] is not a) \
+                    else self.probe_reaction
+                kw = _plan_kwargs(name, plan, cond, has_ts, rxn_arg)
                 if kw is None:
                     ex = ctx.extra.setdefault('getter_unplanned', {})
                     ex[cn + '.' + name] = ex.get(cn + '.' + name, 0) + 1
@@ -875,6 +897,7 @@ class Cmp:
                     continue
                 sa, fa = _flatten(va)
                 sb, fb = _flatten(vb)
+                fa, fb = _nan_pair(fa, fb)
                 if telemetry:
                     if sa != sb or ctx.err(fb, fa) > TOL:
                         _tele(ctx, cn, name)
@@ -888,6 +911,36 @@ class Cmp:
         return dirty
 
 
+class _Silent:
+    """Recorder with the Ctx interface that turns verdicts into telemetry counters."""
+
+    def __init__(self, ctx, key):
+        self.ctx = ctx
+        self.key = key
+        self.extra = {}
+
+    def held(self, oracle, n=1):
+        pass
+
+    def fail(self, oracle, mech=None, **detail):
+        m = mech or {}
+        k = '%s.%s.%s' % (m.get('class'), m.get('step'), m.get('attr') or m.get('getter') or m.get('got'))
+        ex = self.ctx.extra.setdefault(self.key, {})
+        ex[k] = ex.get(k, 0) + 1
+        return False
+
+    def err(self, got, want, scale=None):
+        return self.ctx.err(got, want, scale)
+
+    def close(self, oracle, got, want, tol, mech=None, scale=None, **detail):
+        if self.err(got, want, scale) <= tol:
+            return True
+        return self.fail(oracle, mech)
+
+    def check(self, oracle, cond, mech=None, **detail):
+        return True if cond else self.fail(oracle, mech)
+
+
 def _tele(ctx, cn, name):
     ex = ctx.extra.setdefault('getter_differs_when_attr_dropped', {})
     ex[cn + '.' + name] = ex.get(cn + '.' + name, 0) + 1
@@ -895,6 +948,8 @@ def _tele(ctx, cn, name):
 
 def _short(v, depth=0):
     """compact, JSON-safe description for details"""
+    if type(v).__name__ == 'ndarray':
+        return {'ndarray_shape': list(v.shape), 'dtype': str(v.dtype), 'value': _short(v.tolist(), depth + 1)}
     if is_pm(v):
         return '<%s>' % cname(v)
     if isinstance(v, dict):
@@ -1071,57 +1126,85 @@ def canon_diff(a, b, owner, attr, out):
         out.add((owner, attr))
 
 
-def json_changes(before, after, out, owner='<top>'):
-    """Which dictionaries of a JSON document were altered: owner class -> description"""
-    if isinstance(before, dict):
-        if isinstance(before.get('class'), str):
-            owner = before['class'].split("'")[1].rsplit('.', 1)[-1] if "'" in before['class'] else before['class']
-            if 'pmutt.omkm' in before['class'] and owner == 'BEP':
-                owner = 'omkm.BEP'
-        if not isinstance(after, dict):
-            out.setdefault(owner, set()).add('replaced')
-            return
-        removed = sorted(k for k in before if k not in after)
-        added = sorted(k for k in after if k not in before)
-        if removed:
-            out.setdefault(owner, set()).add('removed:' + ','.join(removed))
-        if added:
-            out.setdefault(owner, set()).add('added:' + ','.join(added))
-        for k in before:
-            if k in after:
-                sub = {}
-                json_changes(before[k], after[k], sub, owner)
-                for o, w in sub.items():
-                    if o == owner and not isinstance(before[k], dict):
-                        out.setdefault(owner, set()).add('changed:' + k)
-                    elif o == owner and not isinstance(before[k].get('class'), str):
-                        out.setdefault(owner, set()).add('changed:' + k)
-                    else:
-                        out.setdefault(o, set()).update(w)
-        return
-    if isinstance(before, list):
-        if not isinstance(after, list) or len(after) != len(before):
-            out.setdefault(owner, set()).add('value')
-            return
-        for x, y in zip(before, after):
-            json_changes(x, y, out, owner)
-        return
-    if type(before) is not type(after) or before != after:
-        out.setdefault(owner, set()).add('value')
+def _json_owner(d, default):
+    c = d.get('class')
+    if isinstance(c, str) and "'" in c:
+        full = c.split("'")[1]
+        short = full.rsplit('.', 1)[-1]
+        if short == 'BEP' and full.startswith('pmutt.omkm'):
+            return 'omkm.BEP'
+        return short
+    return default
+
+
+def json_changes(before, after, out, owner):
+    """Which dictionaries of a JSON document were altered in place: owner class -> {what}.
+    `before` is the pristine deep copy, `after` the (same shaped) document after decoding."""
+    own = _json_owner(before, owner)
+    removed = sorted(k for k in before if k not in after)
+    added = sorted(str(k) for k in after if k not in before)
+    if removed:
+        out.setdefault(own, set()).add('removed:' + ','.join(removed))
+    if added:
+        out.setdefault(own, set()).add('added:' + ','.join(added))
+    for k in before:
+        if k in after:
+            _json_child(before[k], after[k], out, own, k)
+
+
+def _json_child(bv, av, out, own, key):
+    if isinstance(bv, dict):
+        if not isinstance(av, dict):
+            out.setdefault(own, set()).add('changed:' + key)
+        else:
+            json_changes(bv, av, out, own)
+    elif isinstance(bv, list):
+        if not isinstance(av, list) or len(av) != len(bv):
+            out.setdefault(own, set()).add('changed:' + key)
+        else:
+            for x, y in zip(bv, av):
+                _json_child(x, y, out, own, key)
+    elif type(bv) is not type(av) or bv != av:
+        out.setdefault(own, set()).add('changed:' + key)
 
 
 # ---- who is responsible for an exception ---------------------------------------------------
 def _responsible(e, method, fallback):
-    tb = e.__traceback__
+    """class of the innermost to_dict / from_dict frame on the exception's traceback (the encoder
+    swallows AttributeError and raises TypeError instead: follow __context__)"""
     who = None
-    while tb is not None:
-        fr = tb.tb_frame
-        if fr.f_code.co_name == method:
-            o = fr.f_locals.get('self' if method == 'to_dict' else 'cls')
-            if o is not None and (inspect.isclass(o) or is_pm(o)):
-                who = cname(o)
-        tb = tb.tb_next
+    seen = 0
+    while e is not None and seen < 4:
+        tb = e.__traceback__
+        found = None
+        while tb is not None:
+            fr = tb.tb_frame
+            if fr.f_code.co_name == method:
+                o = fr.f_locals.get('self' if method == 'to_dict' else 'cls')
+                if o is not None and (inspect.isclass(o) or is_pm(o)):
+                    found = cname(o)
+            tb = tb.tb_next
+        if found:
+            who = found
+        e = e.__context__
+        seen += 1
     return who or fallback
+
+
+def _at(e):
+    """name of the innermost pMuTT function on the traceback (discriminates mechanisms)"""
+    import traceback
+    best = ''
+    seen = 0
+    while e is not None and seen < 4:
+        for fr in traceback.extract_tb(e.__traceback__):
+            if '/pmutt/' in fr.filename:
+                best = fr.name
+        if best and best != 'default':
+            return best
+        e = e.__context__
+        seen += 1
+    return best
 
 
 def _unserialisable(o, owner, key, depth=0):
@@ -1241,7 +1324,7 @@ def _encode(ctx, obj, top, repeat):
         txt = json.dumps(obj, cls=pmuttEncoder)
     except Exception as e:                         # noqa: J1 violated
         who = _responsible(e, 'to_dict', None)
-        m = {'step': 'encode', 'exc': type(e).__name__}
+        m = {'step': 'encode', 'exc': type(e).__name__, 'at': _at(e)}
         if who is None:
             r = _unserialisable(obj, top, None)
             if r:
@@ -1262,7 +1345,8 @@ def _decode(ctx, txt, top, repeat):
     try:
         new = json.loads(txt, object_hook=json_to_pmutt)
     except Exception as e:                         # noqa: J2 violated
-        m = {'class': _responsible(e, 'from_dict', top), 'step': 'decode', 'exc': type(e).__name__}
+        m = {'class': _responsible(e, 'from_dict', top), 'step': 'decode', 'exc': type(e).__name__,
+             'at': _at(e)}
         if repeat:
             m['cycle'] = 'repeat'
         ctx.fail('J2', m, message=str(e)[:300], top=top, where=core._tb_where(e))
@@ -1309,17 +1393,21 @@ def run_case(spec, ctx):
     if o1 is core.NOVALUE:
         return
     cmp1 = Cmp(ctx, spec['conds'], probe)
-    cmp1.obj(obj, o1)
+    cmp1.dirty = cmp1.obj(obj, o1)
     if type(o1) is not type(obj):
         # the class is not restored; if its own from_dict would not cope either, say so (telemetry)
         if isinstance(o1, dict):
             ex = ctx.extra.setdefault('unregistered_from_dict', {})
+            r = None
             try:
-                r = type(obj).from_dict(copy.deepcopy(json.loads(txt1)))
+                r = type(obj).from_dict(dict(o1))
                 k = '%s:%s' % (top, 'ok' if type(r) is type(obj) else 'wrong:' + type(r).__name__)
             except Exception as e:                 # noqa
                 k = '%s:raises_%s' % (top, type(e).__name__)
             ex[k] = ex.get(k, 0) + 1
+            if r is not None and type(r) is type(obj):
+                # what would still be lost if the class were registered (telemetry, no verdict)
+                Cmp(_Silent(ctx, 'behind_unregistered'), spec['conds'], probe).obj(obj, r)
         return
 
     # ---- J5: direct use of the object hook on a dictionary ---------------------------------------
@@ -1332,20 +1420,24 @@ def run_case(spec, ctx):
                         'exc': type(e).__name__}, message=str(e)[:300], top=top)
         od1 = core.NOVALUE
     changes = {}
-    json_changes(snap, d, changes)
+    json_changes(snap, d, changes, top)
     if not changes:
         ctx.held('J5')
     for owner, what in sorted(changes.items()):
-        ctx.fail('J5', {'class': owner, 'step': 'mutates_input', 'what': ';'.join(sorted(what))}, top=top)
+        for w in sorted(what):
+            kind, _, keys = w.partition(':')
+            for key in keys.split(','):
+                ctx.fail('J5', {'class': owner, 'step': 'mutates_input', 'what': kind, 'attr': key}, top=top)
     if od1 is not core.NOVALUE:
-        c_hook = canon_obj(o1)
-        # direct decode == object-hook decode
-        diffs = set()
-        canon_diff(canon_obj(od1), c_hook, top, '<top>', diffs)
-        if not diffs:
-            ctx.held('J5')
-        for owner, attr in sorted(diffs):
-            ctx.fail('J5', {'class': owner, 'step': 'direct_decode', 'attr': attr}, top=top)
+        # direct decode == object-hook decode (meaningless while some class of the tree is not
+        # restored at all: that has been reported by J2)
+        if not cmp1.class_mismatch:
+            diffs = set()
+            canon_diff(canon_obj(od1), canon_obj(o1), top, '<top>', diffs)
+            if not diffs:
+                ctx.held('J5')
+            for owner, attr in sorted(diffs):
+                ctx.fail('J5', {'class': owner, 'step': 'direct_decode', 'attr': attr}, top=top)
         # decoding the same dictionary again
         try:
             od2 = json_to_pmutt(d)
@@ -1365,7 +1457,12 @@ def run_case(spec, ctx):
                 for owner, attr in sorted(diffs):
                     ctx.fail('J5', {'class': owner, 'step': 'redecode', 'attr': attr}, top=top)
 
-    # ---- repeated cycles -------------------------------------------------------------------------
+    # ---- repeated cycles (drift is only defined when the first cycle was clean; otherwise the
+    # root cause has been reported and everything after it is a consequence) ----------------------
+    if cmp1.dirty:
+        if spec['cycles'] > 1:
+            ctx.extra['repeat_skipped_first_cycle_dirty'] = ctx.extra.get('repeat_skipped_first_cycle_dirty', 0) + 1
+        return
     cur = o1
     texts = []
     for k in range(2, spec['cycles'] + 1):
@@ -1390,13 +1487,5 @@ def run_case(spec, ctx):
             ctx.fail('J5', {'class': owner, 'step': 'restable', 'attr': attr}, top=top)
         if len(texts) > 1:
             ctx.check('J5', json.loads(texts[0]) == json.loads(texts[-1]), {'class': top, 'step': 'restable_text'})
-        # and the last object still behaves like the original (only when the first cycle was clean,
-        # otherwise the root cause has been reported already)
-        if not cmp1_dirty(ctx, cmp1):
-            Cmp(ctx, spec['conds'], probe, {'cycle': 'repeat'}).obj(obj, cur)
-    ex = ctx.extra.setdefault('depth_max', {})
-    ex[str(cmp1.depth_max)] = ex.get(str(cmp1.depth_max), 0) + 1
-
-
-def cmp1_dirty(ctx, cmp1):
-    return getattr(cmp1, 'dirty', False)
+        # and the last object still behaves like the original
+        Cmp(ctx, spec['conds'], probe, {'cycle': 'repeat'}).obj(obj, cur)
